@@ -30,6 +30,10 @@ pub enum Ts {
     RelFirstVideo(i64, i8),
     /// >= 2^53 ticks
     Huge(u8),
+    /// the f64 of the first accepted video PTS moved by k units in the last place (k < 0: just below it)
+    UlpsFromFirstVideo(i8),
+    /// the f64 of the track's last accepted timestamp moved by k units in the last place
+    UlpsFromLast(i8),
 }
 
 #[derive(Clone, Debug, Serialize, Deserialize, PartialEq, Eq, Hash)]
@@ -179,11 +183,26 @@ pub fn raw_ccfg(c: &RawCase) -> CCfg {
         empty_metadata: false,
         alias_builder: false,
         reconfig: 0,
+        misalign: 0,
     }
 }
 
-fn ts_value(ts: &Ts, reference: Option<u64>, first_video: Option<u64>) -> f64 {
+fn nudge(x: f64, k: i8) -> f64 {
+    if !x.is_finite() || x < 0.0 {
+        return x;
+    }
+    let b = x.to_bits() as i128 + k as i128;
+    if b < 0 {
+        -f64::from_bits((-b) as u64)
+    } else {
+        f64::from_bits(b as u64)
+    }
+}
+
+fn ts_value(ts: &Ts, reference: Option<u64>, first_video: Option<u64>, first_video_f64: Option<f64>, last_f64: Option<f64>) -> f64 {
     match ts {
+        Ts::UlpsFromFirstVideo(k) => nudge(first_video_f64.unwrap_or(0.0), *k),
+        Ts::UlpsFromLast(k) => nudge(last_f64.or(first_video_f64).unwrap_or(0.0), *k),
         Ts::NaN => f64::NAN,
         Ts::PosInf => f64::INFINITY,
         Ts::NegInf => f64::NEG_INFINITY,
@@ -386,7 +405,7 @@ pub fn interpret(c: &RawCase, decisions: &std::collections::BTreeMap<usize, bool
         let idx = i as u64;
         match op {
             ROp::Video { ts, frame, key } => {
-                let pts = ts_value(ts, st.last_vtick, st.first_vpts_tick);
+                let pts = ts_value(ts, st.last_vtick, st.first_vpts_tick, st.first_vpts, st.last_vpts);
                 let (data, exp, _) = vframe(cfg.codec, frame, idx);
                 let (v, tick, tie) = judge_video(&st, &cfg, pts, None, frame, *key, &data);
                 let sample = Some((true, exp, *key, tick, tick));
@@ -394,10 +413,10 @@ pub fn interpret(c: &RawCase, decisions: &std::collections::BTreeMap<usize, bool
                 steps.push(Step { op: COp::Video { pts, data, key: *key }, verdict: v, sample, tie });
             }
             ROp::VideoDts { pts, dts, frame, key } => {
-                let d = ts_value(dts, st.last_vtick, st.first_vpts_tick);
+                let d = ts_value(dts, st.last_vtick, st.first_vpts_tick, st.first_vpts, st.last_vdts_explicit.or(st.last_vpts));
                 // pts relative to the dts of this very call
                 let dt = if d.is_finite() && d >= 0.0 { Some(ticks_exact(d).tick) } else { st.last_vtick };
-                let p = ts_value(pts, dt, st.first_vpts_tick);
+                let p = ts_value(pts, dt, st.first_vpts_tick, st.first_vpts, Some(d));
                 let (data, exp, _) = vframe(cfg.codec, frame, idx);
                 let (v, dtick, tie) = judge_video(&st, &cfg, p, Some(d), frame, *key, &data);
                 let ptick = if p.is_finite() && p >= 0.0 { ticks_exact(p).tick } else { 0 };
@@ -406,7 +425,7 @@ pub fn interpret(c: &RawCase, decisions: &std::collections::BTreeMap<usize, bool
                 steps.push(Step { op: COp::VideoDts { pts: p, dts: d, data, key: *key }, verdict: v, sample, tie });
             }
             ROp::Audio { ts, frame } => {
-                let pts = ts_value(ts, st.last_atick.or(st.first_vpts_tick), st.first_vpts_tick);
+                let pts = ts_value(ts, st.last_atick.or(st.first_vpts_tick), st.first_vpts_tick, st.first_vpts, st.last_apts);
                 let (data, exp, grey) = aframe(&cfg, frame, idx);
                 let (v, tick, tie) = judge_audio(&st, audio_cfg, pts, &data, exp.is_some(), grey);
                 let sample = exp.map(|e| (false, e, true, tick, tick));
@@ -747,6 +766,8 @@ pub fn ts_strategy() -> impl Strategy<Value = Ts> {
         1 => (-1i8..=1).prop_map(Ts::GapU32),
         3 => (prop_oneof![Just(0i64), -3000i64..3000, 0i64..200000], -49i8..=49).prop_map(|(d, j)| Ts::RelFirstVideo(d, j)),
         1 => (0u8..12).prop_map(Ts::Huge),
+        1 => (-3i8..=3).prop_map(Ts::UlpsFromFirstVideo),
+        1 => (-3i8..=3).prop_map(Ts::UlpsFromLast),
     ]
 }
 
@@ -815,7 +836,7 @@ pub fn raw_case_strategy(max_ops: usize, finish_weight: u32) -> impl Strategy<Va
         any::<bool>(),
         proptest::option::weighted(0.2, "[a-z]{0,12}"),
         vec((rop_strategy(finish_weight), prop::bool::weighted(0.25)), 0..=max_ops),
-        (any::<bool>(), prop_oneof![6 => Just(0u64), 2 => 0u64..10_000_000, 2 => (1u64 << 32) - 100_000..(1u64 << 33), 1 => 0u64..(1u64 << 40)]),
+        (any::<bool>(), prop_oneof![6 => Just(0u64), 2 => 0u64..10_000_000, 2 => (1u64 << 32) - 100_000..(1u64 << 33), 1 => 0u64..(1u64 << 40), 1 => (1u64 << 40)..(1u64 << 52), 1 => (33u32..52, 1u64..100_000).prop_map(|(k, b)| (1u64 << k) - b)]),
     )
         .prop_map(|(codec, video_configured, audio, rate_idx, channels, fast_start, title, ops, (lead_key, start))| {
             let mut ops: Vec<ROp> = ops.into_iter().map(|(op, loose)| tidy(op, loose)).collect();
@@ -840,7 +861,8 @@ fn huge_audio_ts(pts: f64) -> bool {
 
 pub const BURST_NOTE: &str = "fixed list: every kind of rejected call (garbage / corrupt / empty / backwards / NaN audio, garbage encode_audio, \
      same-timestamp / empty / NaN / dts-backwards video, empty encode_video) repeated 1, 63, 64, 65, 300 times in a row between accepted frames \
-     of all framing variants (AAC with and without CRC, Opus); and 4 300 / 70 000 accepted frames (explicit and automatic timestamps) after a rejected call";
+     of all framing variants (AAC with and without CRC, Opus); and 4 300 / 65 535 accepted frames (explicit and automatic timestamps) after a rejected call; \
+     encode_video / encode_audio advanced 120..5 000 times by the largest steps whose gap still fits 32 bits";
 
 pub fn burst_cases(_t: crate::engine::Tier) -> Vec<RawCase> {
     let vkey = |ts: Ts| ROp::Video { ts, frame: VF { kind: VKind::KeyCfg, size: 24, shape: 0 }, key: true };
@@ -914,6 +936,24 @@ pub fn burst_cases(_t: crate::engine::Tier) -> Vec<RawCase> {
                 out.push(RawCase { codec: 2 + enc as u8, video_configured: true, audio, rate_idx: 3, channels: 2, fast_start: !enc, title: None, ops, start: 0, repeat: vec![(1, 49), (3, n)] });
             }
         }
+    }
+    // deep reordering: the frame that is presented last sits 17 / 32 / 65 positions before the end in decode order
+    // (I, P shown after all the B-frames, then the B-frames): statistics and tables must look at every sample
+    for (codec, nb) in [(0u8, 16u16), (1, 31), (2, 64)] {
+        let p = ROp::VideoDts { pts: Ts::Rel(nb as i64 * 3000, 0), dts: Ts::Rel(3000, 0), frame: VF { kind: VKind::Delta, size: 9, shape: 1 }, key: false };
+        let b = ROp::VideoDts { pts: Ts::Rel(-3000, 0), dts: Ts::Rel(3000, 0), frame: VF { kind: VKind::Delta, size: 8, shape: 2 }, key: false };
+        out.push(RawCase { codec, video_configured: true, audio: 0, rate_idx: 3, channels: 1, fast_start: nb % 2 == 0, title: None, ops: vec![vkey(Ts::Abs(0, 0)), p, b, ROp::Finish(1)], start: 0, repeat: vec![(2, nb - 1)] });
+    }
+    // automatic clocks advanced by the largest legal steps: the accumulated time crosses 2^32 ms (49.7 days) and 2^32 samples long
+    // before the number of calls is large; every call must still be accepted (the gap fits 32 bits each time)
+    for (codec, ms, n) in [(2u8, 47_721_858u32, 200u16), (3, 40_000_000, 150), (0, 1_000_000, 5000)] {
+        let first = ROp::EncVideo { frame: VF { kind: VKind::KeyCfg, size: 24, shape: 0 }, ms };
+        let step = ROp::EncVideo { frame: VF { kind: VKind::Delta, size: 7, shape: 0 }, ms };
+        out.push(RawCase { codec, video_configured: true, audio: 0, rate_idx: 3, channels: 1, fast_start: true, title: None, ops: vec![first, step, ROp::Finish(1)], start: 0, repeat: vec![(1, n)] });
+    }
+    for (rate_idx, samples, n) in [(3u8, 2_290_000_000u32, 150u16), (4, 2_000_000_000, 120), (11, 381_000_000, 200)] {
+        let ops = vec![vkey(Ts::Abs(0, 0)), ROp::EncAudio { frame: AF { kind: AKind::Valid, size: 7, shape: 33 }, samples }, ROp::Finish(1)];
+        out.push(RawCase { codec: 1, video_configured: true, audio: 1, rate_idx, channels: 1, fast_start: false, title: None, ops, start: 0, repeat: vec![(1, n)] });
     }
     out
 }
